@@ -42,6 +42,12 @@ func (s *bstSys) Do(o tt.Op) tt.Res {
 		return tt.Res{Ok: true}
 	case "delete":
 		return tt.Res{Ok: s.t.Delete(o.A[0]) == nil}
+	case "get": // an observer as a call of its own, between the edits
+		it, err := s.t.Get(o.A[0])
+		if err != nil {
+			return tt.Res{Ok: false}
+		}
+		return tt.Res{Ok: true, V: it.Val}
 	}
 	panic("bstree driver: unknown op " + o.N)
 }
@@ -84,6 +90,9 @@ func bstExplorer(depth int) *tt.Explorer {
 			var r []tt.Op
 			for _, k := range keys {
 				r = append(r, op("upsert", k, len(path)), op("delete", k))
+			}
+			if path[len(path)-1].N != "get" { // never two in a row
+				r = append(r, op("get", 1), op("get", 3))
 			}
 			return r
 		},
@@ -128,6 +137,12 @@ func mapLinear(cfg Config, file string, runs, steps, keyRange int, mk func(probe
 			default:
 				k = rng.Intn(keyRange)
 			}
+			if rng.Intn(8) == 0 { // a lookup between the edits: a key touched lately, or any
+				if len(lastKeys) > 0 && rng.Intn(2) == 0 {
+					return op("get", lastKeys[0]), true
+				}
+				return op("get", rng.Intn(keyRange)), true
+			}
 			if rng.Intn(10) < 3 {
 				k = rng.Intn(keyRange)
 				lastKeys = []int{k}
@@ -168,6 +183,25 @@ func mapLinear(cfg Config, file string, runs, steps, keyRange int, mk func(probe
 			sc = append(sc, op(insert, k, 99))
 		}
 		scripts = append(scripts, sc)
+	}
+	// look a key up, change the structure around it, change the key itself, look it up again: what a lookup
+	// may have remembered must not survive the edits (most telling in the sparse pass, where hardly any
+	// other query comes in between)
+	for _, side := range []int{1, -1} {
+		for _, n := range []int{3, 4, 5, 8, 12, 20} {
+			sc := []tt.Op{op("new", 0)}
+			for k := 0; k < n; k++ {
+				sc = append(sc, op(insert, 10+2*k, 500+k))
+			}
+			for k := n - 1; k >= 0; k-- {
+				K := 10 + 2*k
+				N := K + side // a new key right next to it
+				sc = append(sc, op("get", K), op(insert, N, 600+k), op(insert, N, 650+k), op("get", N),
+					op(insert, K, 700+k), op("get", K), op(remove, N), op("get", N),
+					op(remove, K), op("get", K), op(insert, K, 800+k), op("get", K))
+			}
+			scripts = append(scripts, sc)
+		}
 	}
 	for _, sc := range scripts {
 		sc := sc
@@ -224,6 +258,13 @@ func init() {
 			s.Leaves += runs
 			s.Extra["linear_runs"] = runs
 			s.Extra["linear_nodes"] = n
+			if err := sparsePass(cfg, s, func(f string) (int, error) {
+				return mapLinear(cfg, f, runs, steps, 200, func(probe func() []int, full func() bool) tt.Sys {
+					return &bstSys{probe: probe, full: full}
+				}, "upsert", "delete", false)
+			}); err != nil {
+				return nil, err
+			}
 			return s, nil
 		},
 		newSys: func(variant string) (func() tt.Sys, any) {
